@@ -52,6 +52,8 @@ def _pycols(c, kind):
         return None
     if 'idx' in c:
         return np.array(c['idx']) if kind.startswith('np') else list(c['idx'])
+    if 'mask' in c:
+        return np.array(c['mask'], dtype=bool) if kind.startswith('np') else [bool(b) for b in c['mask']]
     s, e, st = c['slice']
     return slice(s, e, st)
 
@@ -89,7 +91,8 @@ def impl(case):
                                  sample_rate=sr, dtype=np.dtype(dtype), n_channels=nch,
                                  offset=case.get('offset', 0))
         elif backend == 'npy':
-            np.save(d / 'a.npy', A)
+            # the same recording saved from a C-ordered or a Fortran-ordered array
+            np.save(d / 'a.npy', np.asfortranarray(A) if case.get('npy_order') == 'F' else A)
             r = get_ephys_reader(d / 'a.npy', sample_rate=sr)
         elif backend == 'array':
             r = get_ephys_reader(A, sample_rate=sr)
@@ -108,12 +111,21 @@ def impl(case):
         res = []
         for it, c, kind in case['items']:
             item, cols = _pyitem(it, kind), _pycols(c, kind)
+            keep = (repr(item), repr(cols))
             try:
                 out = r[item] if cols is None else r[item, cols]
                 if hasattr(out, '_append_op'):
                     # reader[:, cols] is a derived reader (C02); observe it through indexing
                     out = out[:]
-                res.append(dict(ids=_ids(out, dtype), dtype=str(out.dtype), ndim=int(np.ndim(out))))
+                rec = dict(ids=_ids(out, dtype), dtype=str(out.dtype), ndim=int(np.ndim(out)))
+                # the caller's index objects are the caller's: unchanged by the call, and the same
+                # objects give the same answer when used again
+                rec['args_changed'] = (repr(item), repr(cols)) != keep
+                out2 = r[item] if cols is None else r[item, cols]
+                if hasattr(out2, '_append_op'):
+                    out2 = out2[:]
+                rec['second_differs'] = _ids(out2, dtype) != rec['ids']
+                res.append(rec)
             except Exception as e:  # noqa
                 res.append(dict(raised=type(e).__name__, msg=str(e)[:200]))
         del r
@@ -122,9 +134,16 @@ def impl(case):
     return dict(attrs=attrs, res=res)
 
 
+def lean_cols(c):
+    """a boolean channel mask is sent to the model as the list of selected channels"""
+    if c is not None and 'mask' in c:
+        return {'idx': [i for i, b in enumerate(c['mask']) if b]}
+    return c
+
+
 def model_query(case, impl_res):
     return dict(p=PID, op='getitems', parts=case['parts'], nch=case['nch'],
-                items=[[it, c] for it, c, kind in case['items']])
+                items=[[it, lean_cols(c)] for it, c, kind in case['items']])
 
 
 def oracle(case):
@@ -170,6 +189,10 @@ def judge(case, impl_res, ans):
             return 'SPEC: item %d: rows/columns differ from NumPy indexing of the concatenation' % k
         if r['dtype'] != case['dtype'] or r['ndim'] != 2:
             return 'SPEC: item %d: dtype/ndim %s/%s' % (k, r['dtype'], r['ndim'])
+        if r.get('args_changed'):
+            return 'SPEC: item %d: indexing modified the index objects passed by the caller (NumPy indexing does not)' % k
+        if r.get('second_differs'):
+            return 'SPEC: item %d: the same index expression gave different rows the second time' % k
     return None
 
 
@@ -178,7 +201,7 @@ def nontrivial(case):
 
 
 def tally(rep, case, impl_res, ans):
-    rep.count('backend:' + case['backend'])
+    rep.count('backend:' + case['backend'] + ('(F-ordered)' if case['backend'] == 'npy' and case.get('npy_order') == 'F' else ''))
     rep.count('dtype:' + case['dtype'])
     rep.count('parts:%d' % min(len(case['parts']), 6))
     rep.count('index_expressions', len(case['items']))
@@ -277,6 +300,9 @@ def col_selectors(nch, rng):
         sel.append({'idx': perm})
     if nch >= 3:
         sel += [{'slice': [None, None, 2]}, {'idx': [2, 0]}, {'idx': [-1, 1]}]
+    mask = [bool(rng.randrange(2)) for _ in range(nch)]
+    mask[rng.randrange(nch)] = True
+    sel.append({'mask': mask})
     return sel
 
 
@@ -317,7 +343,7 @@ def gen(tier, rng):
                 kind = NPKINDS[(j + k) % len(NPKINDS)] if (j + k) % 3 == 0 and backend != 'cbin' else 'py'
                 its.append([it, sels[(j + k) % len(sels)], kind])
             yield dict(p=PID, backend=backend, parts=[n], nch=nch, dtype=dtype, sr=[10., 100.][k % 2],
-                       cd=[1., .2][k % 2], items=its)
+                       cd=[1., .2][k % 2], items=its, npy_order=['C', 'F'][(k // 3) % 2])
     # random larger layouts
     for _ in range(120 if q else 2500):
         nparts = rng.randrange(1, 7)
